@@ -50,6 +50,8 @@ class HeapMixin:
     # ============================================================== attributes
     def getattr_value(self, obj, attr, fr):
         ctx = self.ctx
+        if type(obj).__name__ == "Bottom":
+            return obj
         if isinstance(obj, SymOpt):
             if ctx.branch(obj.is_none, f"isNone@{fr.line}"):
                 raise mk_exc(AttributeError, f"'NoneType' object has no attribute '{attr}'", where=fr.where())
@@ -82,6 +84,8 @@ class HeapMixin:
                 return getattr(obj, attr)
             except AttributeError:
                 raise mk_exc(AttributeError, attr, where=fr.where())
+        if type(obj).__name__ == "SuperProxy":
+            return BoundMethod(obj, attr)
         if isinstance(obj, Closure):
             raise Unsupported(f"attribute {attr} of closure")
         raise Unsupported(f"getattr({obj!r}, {attr})")
@@ -174,6 +178,8 @@ class HeapMixin:
             if key in obj.items:
                 return obj.items[key]
             raise mk_exc(KeyError, key, where=fr.where())
+        if type(obj).__name__ == "Bottom":
+            return obj
         if isinstance(obj, SymMsg):
             return self.msg_get(obj, key, fr, required=True)
         if isinstance(obj, SymMap):
